@@ -179,6 +179,19 @@ def check_state(h, v, acc, record=True):
                     break
             else:
                 acc.validated += 1
+                # the items are values of their own: editing one in place changes neither the others nor the source
+                if L >= 2 and all(type(r) is AnsiString for r in items):
+                    items[0].apply_formatting('3')
+                    items[0] += AnsiString('!', '35')
+                    items[-1].remove_formatting()
+                    for k, r in list(enumerate(items))[1:-1] + [(-1, v)]:
+                        t2, c2 = model.alpha_codes(r)
+                        want_t, want_c = (text, cells) if k < 0 else (text[k], cells[k:k + 1])
+                        if t2 != want_t or not model.cells_equiv(c2, want_c) or model.closed_check(r):
+                            bad.append(('iter', case, 'after editing the first and the last item in place, %s is %r %s (expected %r %s)%s'
+                                        % ('the source' if k < 0 else 'item %d' % k, t2, c2, want_t, want_c,
+                                           '; ' + str(model.closed_check(r)) if model.closed_check(r) else '')))
+                            break
     except Exception as ex:  # noqa
         bad.append(('iter', case, 'iteration raised %s: %s' % (type(ex).__name__, ex)))
     return bad
